@@ -95,6 +95,7 @@ def _unquote(s):
     return ''.join(out)
 
 
+MAX_BATCH_BYTES = 24 * 1024 * 1024
 _VLINE = re.compile(r'^"V\|(\d+)\|([A-Z]+)\|(.*)"$')
 
 
@@ -119,20 +120,27 @@ def judge(module, traces, tag=None, jvms=4, workers=4, heap='3g', timeout=1800, 
         return [], dict(states=0, distinct=0, wall=0.0)
     tag = tag or module
     d = workdir('judge_' + tag)
-    k = max(1, min(jvms, (len(traces) + per_jvm - 1) // per_jvm))
+    lines = []
+    for t in traces:
+        bad = find_null(t)
+        if bad:
+            raise MachineryError(f'JSON null at {bad} in a {t.get("kind")} trace (use the %null sentinel)')
+        lines.append(json.dumps(t, ensure_ascii=True))
+    # at most *jvms* TLC processes at a time; a batch holds at most ~24 MB of JSON (the deserialised records of a much larger batch
+    # do not fit the heap: TLC then spends its time collecting garbage and may stop with an error that blames an innocent record)
+    total = sum(len(x) for x in lines)
+    k = max(1, min(jvms, (len(traces) + per_jvm - 1) // per_jvm), (total + MAX_BATCH_BYTES - 1) // MAX_BATCH_BYTES)
     size = (len(traces) + k - 1) // k
     chunks = [traces[i:i + size] for i in range(0, len(traces), size)]
     files = []
-    for ci, ch in enumerate(chunks):
+    for ci in range(len(chunks)):
         fn = os.path.join(d, f'tr{ci}.ndjson')
         with open(fn, 'w', encoding='utf-8') as f:
-            for t in ch:
-                bad = find_null(t)
-                if bad:
-                    raise MachineryError(f'JSON null at {bad} in a {t.get("kind")} trace (use the %null sentinel)')
-                f.write(json.dumps(t, ensure_ascii=True))
+            for x in lines[ci * size:(ci + 1) * size]:
+                f.write(x)
                 f.write('\n')
         files.append(fn)
+    del lines
 
     forced = {}      # (chunk, index in chunk) -> verdict given because TLC could not evaluate the record
 
@@ -186,7 +194,7 @@ def judge(module, traces, tag=None, jvms=4, workers=4, heap='3g', timeout=1800, 
             forced[(ci, j)] = ('NA', 'not judged: the batch was abandoned after 400 records outside the domain of the specification')
         return dict(res, got=got, **tot)
 
-    with ThreadPoolExecutor(max_workers=len(chunks)) as ex:
+    with ThreadPoolExecutor(max_workers=min(jvms, len(chunks))) as ex:
         results = list(ex.map(one, range(len(chunks))))
     verdicts = []
     stats = dict(states=0, distinct=0, wall=0.0)
